@@ -10,7 +10,8 @@ TWO32 = 1 << 32
 BAD = 4294967295
 TELEMETRY = "datadog.dogstatsd.client"
 
-NAMES = ["c", "g", "req", "a.b", "lat_ms", TELEMETRY + ".metrics", TELEMETRY, "datadog", "x9"]
+NAMES = ["c", "g", "req", "a.b", "lat_ms", TELEMETRY + ".metrics", TELEMETRY, "datadog", "x9",
+         TELEMETRY + "x", TELEMETRY[:-1], TELEMETRY + ".", "datadog.dogstatsd"]
 LKEYS = ["env", "az", "k", "t"]
 LVALS = ["", "prod", "1", "eu-1", "v"]
 U64S = [0, 1, 2, 5, 7, 15, 42, 100, 1000, (1 << 32), (1 << 63), TWO64 - 1, TWO64 - 65536]
@@ -57,7 +58,9 @@ class C10(Prop):
                   "any mix of increments and absolutes); both shapes: C10_spec_ok_on_model (forall c, known_class c = None -> case_wf_full c -> "
                   "spec_ok c (run_case c) = true). NOT proved: (ii) the concurrent conservation identity for absolutes (with two updaters it is "
                   "false even outside the class); runs that exhaust the round-robin fuel are outside the class link (never generated); (iii) idle-once suffix form: flusher between flushes (C10_idle_once_suffix) or one "
-                  "flush in flight (C10_idle_once_suffix_in_flight); other threads may only touch the gauge. A first absolute racing a flush or another first absolute is the open finding C10-rebase-straddle. The forwarder loop (forwarder/sync.rs Forwarder::run, incl. the lifetime of FlushState and the UDP send) is not modelled; it is "
+                  "flush in flight (C10_idle_once_suffix_in_flight); other threads may only touch the gauge. A first absolute racing a flush or another first absolute is the open finding C10-rebase-straddle. Stream framing under short writes / back-pressure (Client::send on unix://) is covered ONLY by the unix-stream end-to-end engine "
+                  "(paused agent, 0.3-1.1 MB frames, strict decoding): the model and flush_once hand whole payloads to the transport. "
+                  "The forwarder loop (forwarder/sync.rs Forwarder::run, incl. the lifetime of FlushState and the UDP send) is not modelled; it is "
                   "exercised end to end by a real exporter built with DogStatsDBuilder against a harness UDP socket in both tiers (judged per key: "
                   "sums, exactly one closing zero, gauge in every flush, histogram values once, timestamp iff Aggressive). "
                   "Histogram record racing a flush is only covered by the free-running stress (no value twice, none fabricated, "
@@ -96,9 +99,12 @@ class C10(Prop):
         mx = rng.weighted([(10, 8192), (4, rng.range(128, 200)), (2, 1432)])
         if rng.chance(1, 150):
             mx = rng.pick([TWO32, TWO32 - 1, TWO32 + 5])
+        prefix = rng.weighted([(3, None), (2, "px"), (1, "my.app")])
+        related = prefix is not None and rng.chance(1, 2)
+        rel_names = [] if prefix is None else [prefix, prefix + ".req", prefix + "req", prefix + ".", prefix[:-1], "x" + prefix]
         keys, seen = [], set()
         for _ in range(rng.range(1, 4)):
-            k = [rng.pick(NAMES), self._labels(rng, 2)]
+            k = [rng.pick(rel_names) if related and rng.chance(2, 3) else rng.pick(NAMES), self._labels(rng, 2)]
             sig = json.dumps(k)
             if sig not in seen:
                 seen.add(sig)
@@ -139,7 +145,7 @@ class C10(Prop):
             for _ in range(rng.range(1, 3)):
                 ops.append(["F", rng.pick(NOWS)])
         return dict(kind="O", aggr=rng.below(2), dist=rng.below(2), samp=int(samp), rsv=rsv, max=mx, lp=rng.below(2),
-                    prefix=rng.weighted([(3, None), (2, "px"), (1, "my.app")]),
+                    prefix=prefix,
                     glabels=self._labels(rng, 2) if rng.chance(1, 3) else [], keys=keys, ops=ops)
 
     def gen_s(self, rng):
@@ -220,6 +226,19 @@ class C10(Prop):
                              dict(stress_line="X %d %d %d %d" % (t, n, v, mode), driver_out=line)))
         viol += self._hist_stress(ctx, core, big)
         viol += self._e2e(ctx, core, big)
+        viol += self._stream(ctx, core, big)
+        probe = self.gen(core.Rng(ctx["seed"]), self.quick_cases if not big else self.thorough_cases)
+        rel = tel = 0
+        for c in probe:
+            if c["kind"] != "O":
+                continue
+            names = [k[0] for k in c["keys"]]
+            if c["prefix"] is not None and any(n.startswith(c["prefix"]) or c["prefix"].startswith(n) for n in names):
+                rel += 1
+            if any(n.startswith(TELEMETRY[:-1]) for n in names):
+                tel += 1
+        ctx["coverage"]["cases_key_name_related_to_prefix"] = rel
+        ctx["coverage"]["cases_key_name_at_telemetry_namespace_boundary"] = tel
         ctx["coverage"]["stress_runs"] = len(confs)
         ctx["coverage"]["stress_increments"] = sum(t * n for t, n, _, _ in confs)
         ctx["coverage"]["stress_flushes"] = flushes
@@ -312,6 +331,58 @@ class C10(Prop):
                                   datagrams=[d.decode("utf-8", "replace") for d in dgs][:80])))
         ctx["coverage"]["e2e_rounds"] = len(confs)
         ctx["coverage"]["e2e_datagrams"] = ndg
+        return viol
+
+    def _stream(self, ctx, core, big):
+        """end to end over a Unix STREAM socket under back-pressure (the real Forwarder::run / Client::send): large maximum
+        payload, one histogram batch per frame (sampling on within the reservoir) so that frames are 0.3-1.1 MB, an agent
+        that pauses after the first bytes of every connection (longer than one write timeout; one scenario longer than two,
+        so that the exporter's write_all gives up and reconnects).  Jitter-free verdict on what the agent decoded: every
+        frame whole ([u32 LE len][one well-formed line], len within the limit; a connection may only END inside a frame and
+        the partial bytes must still be payload text), no histogram value twice, none fabricated, counter deltas never add
+        up to more than the increments, gauge values only ever the values set, in order."""
+        confs = [(120000, 1500000, 300, 450, 100, 0, 0), (40000, 400000, 300, 450, 100, 1, 1), (120000, 1500000, 300, 800, 100, 0, 0)]
+        if big:
+            confs += [(60000, 700000, 200, 600, 100, 1, 0), (120000, 1500000, 300, 0, 100, 0, 1), (20000, 250000, 150, 200, 60, 0, 0)]
+        lines = ["U %d %d %d %d %d %d %d" % c for c in confs]
+        rc, outs, err = core.run_impl(ctx["binpath"], lines, timeout=300)
+        if rc != 0 or len(outs) != len(lines):
+            raise core.MachineryBroken("unix stream driver failed: rc=%s %s" % (rc, err[-500:]))
+        viol, cov = [], ctx["coverage"]
+        tot = dict(conns=0, frames=0, maxframe=0, trunc=0)
+        for conf, line in zip(confs, outs):
+            head, _, first = line.partition("|")
+            f = head.split()
+            conns, frames, maxframe, trunc, dups, fab, distinct, csum, cmax = (int(x) for x in f[1:10])
+            gvals = [] if f[10] == "-" else f[10].split(",")
+            nerr = int(f[11])
+            tot["conns"] += conns
+            tot["frames"] += frames
+            tot["trunc"] += trunc
+            tot["maxframe"] = max(tot["maxframe"], maxframe)
+            bad = []
+            if nerr:
+                bad.append("%d framing/format errors in the received stream, first: %s" % (nerr, first.strip()))
+            if dups:
+                bad.append("%d histogram values arrived more than once" % dups)
+            if fab:
+                bad.append("%d histogram values arrived that were never recorded" % fab)
+            if csum > 12 or cmax > 12:
+                bad.append("counter deltas received add up to %d (largest %d); 12 were added" % (csum, cmax))
+            order = [v for i, v in enumerate(gvals) if i == 0 or gvals[i - 1] != v]
+            if any(v not in ("0.0", "1.0", "2.0") for v in gvals) or order != sorted(order):
+                bad.append("gauge values received %s are not the values set, in order" % order)
+            if bad:
+                viol.append(("stream", "unix stream under back-pressure (values/batch=%d max payload=%d write timeout=%dms agent pause=%dms): %s"
+                             % (conf[0], conf[1], conf[2], conf[3], "; ".join(bad)),
+                             dict(stream_line="U %d %d %d %d %d %d %d" % conf, driver_out=line[:600])))
+        cov["stream_scenarios"] = len(confs)
+        cov["stream_paused_agent_scenarios"] = sum(1 for c in confs if c[3] > 0)
+        cov["stream_pause_longer_than_two_write_timeouts"] = sum(1 for c in confs if c[3] > 2 * c[2])
+        cov["stream_connections"] = tot["conns"]
+        cov["stream_whole_frames"] = tot["frames"]
+        cov["stream_largest_frame_bytes"] = tot["maxframe"]
+        cov["stream_connections_ended_inside_a_frame"] = tot["trunc"]
         return viol
 
     def _hist_stress(self, ctx, core, big):
